@@ -1330,6 +1330,9 @@ class Model:
         seeds = jax.random.split(seed, len(dists))
 
         for dist, seed in zip(dists, seeds):
+            # bring the inputs of the distribution up to date with the values drawn
+            # so far (no-op if the model is auto-updating)
+            self.update(dist.name)
             tfp_dist = dist.init_dist()
 
             event_shape = tfp_dist.event_shape
